@@ -317,7 +317,7 @@ WinTable(d) == [h \in 1..2 |-> [s \in Nodes |-> [l \in 1..Len(Levels) |->
 DiffSeq == SetToSeq({[kind |-> q.kind, hid |-> q.hid, s |-> q.s, L |-> q.L, algo |-> Mask(q.algo),
                       cls |-> IF q.algo \subseteq q.may THEN "miss" ELSE "extra"] : q \in QDiffs})
 CaseQ == [n |-> N, par |-> par, decl |-> EdgeSeq(decl), prov |-> prov, req |-> [t \in Nodes |-> IF req[t] THEN 1 ELSE 0],
-          up |-> up, levels |-> Levels,
+          up |-> up, levels |-> Levels, chain |-> FamilyChain,
           expect |-> [res |-> EdgeSeq(res), qedges |-> QEdgeSeq,
                       deps |-> WinTable("f"), rev |-> WinTable("b"),
                       spmust |-> [a \in Nodes |-> Mask({b \in Nodes \ {a} : MustFind(a, b)})],
